@@ -219,6 +219,27 @@ def udtaItems (m : Movie) : Option (List (Bytes × Bytes)) :=
 
 def stringBytes (s : String) : Bytes := s.toUTF8.toList
 
+def digitsVal (d : Bytes) : Option Nat :=
+  if d ≠ [] ∧ d.all (fun b => 48 ≤ b.toNat ∧ b.toNat ≤ 57) then some (d.foldl (fun a b => a * 10 + (b.toNat - 48)) 0) else none
+
+/-- the text is `Y…Y-MM-DDThh:mm:ssZ` (year at least 4 digits, zero padded) and denotes the Unix
+    second `secs` in the proleptic Gregorian calendar *defined by* `daysFromCivil` -/
+def isoDenotes (txt : Bytes) (secs : Nat) : Bool :=
+  let n := txt.length
+  if n < 20 then false else
+  let ylen := n - 16
+  let y := digitsVal (txt.take ylen)
+  let r := txt.drop ylen
+  let sep (i : Nat) (c : Nat) : Bool := (r[i]?.map (·.toNat)) == some c
+  let fld (i : Nat) : Option Nat := digitsVal ((r.drop i).take 2)
+  match y, fld 1, fld 4, fld 7, fld 10, fld 13 with
+  | some y, some mo, some d, some hh, some mi, some ss =>
+    sep 0 45 && sep 3 45 && sep 6 84 && sep 9 58 && sep 12 58 && sep 15 90 &&
+    (ylen == 4 || (txt.headD 0).toNat != 48) &&
+    validCivil y mo d && hh < 24 && mi < 60 && ss < 60 &&
+    daysFromCivil y mo d * 86400 + hh * 3600 + mi * 60 + ss == secs
+  | _, _, _, _, _, _ => false
+
 def isLowerCode (l : List Nat) : Bool := l.length == 3 && l.all fun c => 97 ≤ c && c ≤ 122
 
 def oracleC18 (c : PCase) (ops : List (List String)) (o : PObs) : Bool :=
@@ -236,7 +257,7 @@ def oracleC18 (c : PCase) (ops : List (List String)) (o : PObs) : Bool :=
           | some t => nam.length == 1 && nam.all (fun it => it.2 == [0, 0, 0, 1, 0, 0, 0, 0] ++ t)
           | none => nam.isEmpty
         let dayOk := match md.ctime with
-          | some s => day.length == 1 && day.all (fun it => it.2 == [0, 0, 0, 1, 0, 0, 0, 0] ++ stringBytes (isoOfUnix s))
+          | some s => day.length == 1 && day.all (fun it => it.2.take 8 == [0, 0, 0, 1, 0, 0, 0, 0] && isoDenotes (it.2.drop 8) s)
           | none => day.isEmpty
         titleOk && dayOk && items.length == nam.length + day.length
     let noUdta := if md.title.isNone && md.ctime.isNone then m.udta.isNone else m.udta.isSome
